@@ -36,6 +36,9 @@ type c12Outcome struct {
 	Ret    [][]int   `json:"results_at_return"` // nil entry = no match
 	End    [][]int   `json:"results_at_end"`
 	Hidden int       `json:"results_elided,omitempty"`
+	// results whose re-read value differs from the value at return (must be 0)
+	Altered      int `json:"results_altered_after_return"`
+	FirstAltered int `json:"first_altered_index,omitempty"`
 }
 
 type c12Out struct {
@@ -88,6 +91,12 @@ func c12RunMode(pat string, lines [][]byte, ic bool) (out c12Outcome) {
 	for i, r := range held {
 		if r != nil {
 			out.End[i] = append([]int{}, r...)
+			if fmt.Sprint(out.End[i]) != fmt.Sprint(out.Ret[i]) {
+				if out.Altered == 0 {
+					out.FirstAltered = i
+				}
+				out.Altered++
+			}
 		}
 	}
 	return
@@ -137,6 +146,72 @@ func coqRes(rs [][]int) string {
 		sb.WriteString(";")
 	}
 	return chunks(sb.String())
+}
+
+// long sequences: tables of distinct lines / results, one character ('0'+index) per call; only when
+// both tables have at most 75 entries (otherwise the plain form is used)
+func coqCompact(in c12In, out c12Out) (string, bool) {
+	const maxTbl = 75
+	lidx := map[string]int{}
+	var ltbl []string
+	var seq strings.Builder
+	for _, l := range in.Lines {
+		i, ok := lidx[l]
+		if !ok {
+			i = len(ltbl)
+			lidx[l] = i
+			ltbl = append(ltbl, "\""+l+"\"")
+		}
+		seq.WriteByte(byte('0' + i))
+	}
+	if len(ltbl) > maxTbl {
+		return "", false
+	}
+	ridx := map[string]int{}
+	var rtbl []string
+	code := func(rs [][]int) string {
+		var sb strings.Builder
+		for _, r := range rs {
+			k := "Nil"
+			if r != nil {
+				ps := make([]string, len(r))
+				for j, v := range r {
+					ps[j] = Z(int64(v))
+				}
+				k = "S_ [" + strings.Join(ps, ";") + "]"
+			}
+			i, ok := ridx[k]
+			if !ok {
+				i = len(rtbl)
+				ridx[k] = i
+				rtbl = append(rtbl, k)
+			}
+			sb.WriteByte(byte('0' + i%200))
+		}
+		return sb.String()
+	}
+	type enc struct{ ret, end string }
+	encs := map[*c12Outcome]enc{}
+	for _, o := range []*c12Outcome{&out.CS, &out.IC} {
+		if o.Run && o.Panic == "" && o.Err == 0 {
+			encs[o] = enc{code(o.Ret), code(o.End)}
+		}
+	}
+	if len(rtbl) > maxTbl {
+		return "", false
+	}
+	oc := func(o *c12Outcome) string {
+		e, ok := encs[o]
+		if !ok {
+			return coqOutcome(*o)
+		}
+		ns := make([]string, len(o.Names))
+		for i, n := range o.Names {
+			ns[i] = fmt.Sprintf("(\"%s\",%s)", n.Name, Z(int64(n.Idx)))
+		}
+		return "(KL " + CoqList(ns) + " " + CoqList(rtbl) + " " + chunks(e.ret) + " " + chunks(e.end) + ")"
+	}
+	return fmt.Sprintf("cL %d \"%s\" %s %s %s %s", in.Mode, in.Pattern, CoqList(ltbl), chunks(seq.String()), oc(&out.CS), oc(&out.IC)), true
 }
 
 func coqOutcome(o c12Outcome) string {
@@ -212,6 +287,11 @@ func c12Case(in c12In) Case {
 	patb, _ := hex.DecodeString(in.Pattern)
 	pat := string(patb)
 	coq := fmt.Sprintf("c %d \"%s\" %s %s %s", in.Mode, in.Pattern, q(in.Lines), coqOutcome(out.CS), coqOutcome(out.IC))
+	if len(in.Lines) > 500 {
+		if cc, ok := coqCompact(in, out); ok {
+			coq = cc
+		}
+	}
 
 	sh := c12Shape_(pat)
 	tags := []string{fmt.Sprintf("mode=%d", in.Mode)}
@@ -601,9 +681,11 @@ func c12Long(r *Rng, tier string) Case {
 		n = 3000 + r.Intn(3000)
 	}
 	lines := make([][]byte, n)
+	fresh := 0
 	for i := range lines {
-		if r.Chance(1, 40) {
+		if fresh < 40 && r.Chance(1, 60) { // at most 24+40 distinct lines: the compact case form applies
 			lines[i] = c12Line(r, p)
+			fresh++
 		} else {
 			lines[i] = pool[r.Intn(len(pool))]
 		}
